@@ -44,7 +44,7 @@ var (
 	corpus  = flag.String("corpus", "", "corpus file: <tree tokens>;<data tokens> per line, hex encoded")
 	known   = flag.String("known", "", "known_findings.json")
 	workers = flag.Int("workers", 16, "parallel workers")
-	dev     = flag.String("dev", "vb", "deviations the current tree is expected to have: u uncomparable panic (before 0a3fd2c), q float != x (before 21415f8), v int via float64, b bare path not an existence test in Equation.Filter(), g nor in Script() of jp.Get(x) (before fe63c88), r parser takes the second argument of match/search apart (before cd355fe), - none")
+	dev     = flag.String("dev", "v", "deviations the current tree is expected to have: v int via float64; for older trees: u uncomparable panic (before 0a3fd2c), q float != x (before 21415f8), b a filter that is a bare path is not an existence test (before 6b93c2a; trees before fe63c88, where Script() of jp.Get(x) was not one either, are no longer supported), r parser takes the second argument of match/search apart (before cd355fe); - none")
 )
 
 var rep *lib.Report
@@ -59,7 +59,7 @@ func devHas(c byte) bool { return strings.IndexByte(*dev, c) >= 0 }
 
 // modelDev is the part of -dev the Lean model is parametrised by.
 func modelDev() string {
-	d := strings.NewReplacer("b", "", "g", "", "r", "").Replace(*dev)
+	d := strings.NewReplacer("b", "", "r", "").Replace(*dev)
 	if d == "" {
 		d = "-"
 	}
@@ -325,7 +325,7 @@ type route struct {
 	impl  string // implementation outcome (panics normalised to "panic" except in match mode)
 	msg   string // panic message if any
 	text  string
-	wrap0 byte // 0: the route rewrites a bare path into an existence test; otherwise the -dev letter under which it keeps the bare path
+	wrap0 byte // 0: the route lays a bare path out as `path exists true` (Script()); 'b': it lays out the path alone (Filter())
 }
 
 func mapOf(data []any) map[string]any {
@@ -396,9 +396,9 @@ func runRoutes(k kase) []route {
 		sc := guard2(func() *jp.Script { return eq.Script() })
 		if sc != nil {
 			chars, msg := matchChars(sc, data)
-			rs = append(rs, route{name: "builder.match", mode: "match", key: "self", impl: chars, msg: msg, wrap0: 'g'})
+			rs = append(rs, route{name: "builder.match", mode: "match", key: "self", impl: chars, msg: msg})
 			o, m := listOutcome(func() []any { r, _ := sc.Eval([]any{}, data).([]any); return r }, renderList)
-			rs = append(rs, route{name: "builder.eval", mode: "rev", key: "nil", impl: o, msg: m, wrap0: 'g'})
+			rs = append(rs, route{name: "builder.eval", mode: "rev", key: "nil", impl: o, msg: m})
 		}
 		x := jp.R().Filter(eq)
 		o, m := listOutcome(func() []any { return x.Get(data) }, renderList)
@@ -543,6 +543,9 @@ func processBatch(d *lib.Driver, batch []kase) error {
 		wraps := []string{"0"}
 		if k.t.kind == 'p' {
 			wraps = []string{"0", "1"}
+			if devHas('b') {
+				wraps = append(wraps, "o") // the one-cell template evaluated as before 6b93c2a
+			}
 		}
 		for _, w := range wraps {
 			add("self"+w, w, "self")
@@ -628,12 +631,18 @@ func judge(k kase, routes []route, model map[string]answer) {
 			rep.Add(lib.Finding{Kind: "disagreement", Class: "text-not-parsed:" + r.name, What: "script text produced by the harness is rejected by the parser: " + r.impl, Replay: desc})
 			continue
 		}
-		// which program the route runs: only a bare path differs (Script() of parsed text turns it into an
-		// existence test; Filter() and Script() of jp.Get(x) do so only once C12-bare-path is repaired)
+		// which program the route runs: only a bare path differs. Script() lays it out as `path exists true`
+		// (wrap 1), Filter() as the path alone (wrap 0), which evalWithRoot evaluates as an existence test since
+		// 6b93c2a and as "the value is true" before (wrap o, -dev b).
 		wrap := "0"
-		unwrapped := r.wrap0 != 0 && devHas(r.wrap0)
-		if bare && !unwrapped {
-			wrap = "1"
+		unwrapped := r.wrap0 == 'b' && devHas('b')
+		if bare {
+			switch {
+			case r.wrap0 == 0:
+				wrap = "1"
+			case unwrapped:
+				wrap = "o"
+			}
 		}
 		a := model[r.key+wrap]
 		expM, expS, expF := expect(r.mode, a.M, k.data), expect(r.mode, a.S, k.data), expect(r.mode, a.F, k.data)
@@ -714,7 +723,7 @@ func judge(k kase, routes []route, model map[string]answer) {
 				continue
 			}
 			desc := map[string]any{"tree": tt, "data": dt, "route": pr[0] + " vs " + pr[1], "match": m.impl, "filter": g.impl, "text": m.text, "stream": k.stream}
-			if bare && devHas('b') && (pr[0] == "text.match" || !devHas('g')) && lib.HasKnown(knownList, bareID) {
+			if bare && devHas('b') && lib.HasKnown(knownList, bareID) {
 				rep.Add(lib.Finding{Kind: "known", Class: "match-vs-filter:" + strings.SplitN(pr[0], ".", 2)[0] + ":" + bareID, What: "explained by " + bareID, Replay: desc, KnownID: bareID})
 			} else {
 				rep.Add(lib.Finding{Kind: "violation", Class: "match-vs-filter:" + strings.SplitN(pr[0], ".", 2)[0], What: "Script.Match and the filter fragment select different elements", Replay: desc})
